@@ -56,6 +56,8 @@ func checkC10(c *Ctx) {
 	c.Clause("a single-address list entry becomes the exact network of the parsed address (/32 of its 4-byte form, else /128), never a network parsed from the entry's text plus a suffix; every parsed entry lands in the list that is consulted")
 	c.NotDecided("CIDR arithmetic of net.IPNet.Contains; IPv4-mapped address forms; JSON bodies of the endpoints")
 
+	c.Clause("the token enforced is the configured one verbatim: nothing stores to AdminAPIConfig.AuthToken after the file was decoded (expanding or trimming it can turn a configured token into the empty one, which disables authentication)")
+	c.credentialVerbatim()
 	nm := p.Fn("internal/adminapi", "", "NewMux")
 	if nm == nil {
 		c.Missing("endpoint-authenticated", "adminapi.NewMux")
@@ -653,11 +655,26 @@ func checkC11(c *Ctx) {
 						return "mutate:metrics"
 					case strings.HasSuffix(n, "Strategy).GetBackends"):
 						return "getbackends(" + p.Desc(ci.Common().Value, fr) + ")"
+					case n == "builtin:delete" && strings.Contains(p.Desc(ci.Common().Args[0], fr), "fld:loadbalancer.LoadBalancer."):
+						return "undo:" + p.Desc(ci.Common().Args[0], fr) + "[" + p.Desc(ci.Common().Args[1], fr) + "]"
+					}
+				}
+				// an entry added to a map the balancer keeps (a set of taken names, a cache)
+				if mu, ok := in.(*ssa.MapUpdate); ok {
+					if d := p.Desc(mu.Map, fr); strings.HasPrefix(d, "fld:loadbalancer.LoadBalancer.") && !strings.Contains(d, "healthChecker") {
+						return "mutate:insert " + d + "[" + p.Desc(mu.Key, fr) + "]"
 					}
 				}
 				return ""
 			},
-			Expand: func(*ssa.Function, ssa.CallInstruction) bool { return false },
+			// unexported helpers of the balancer are looked into: a mutation moved into one is still a
+			// mutation of the operation
+			Expand: func(callee *ssa.Function, _ ssa.CallInstruction) bool {
+				if callee.Signature.Recv() == nil || callee.Object() == nil || callee.Object().Exported() {
+					return false
+				}
+				return QualType(namedOf(callee.Signature.Recv().Type())) == "loadbalancer.LoadBalancer"
+			},
 		}
 	}
 	for _, name := range []string{"AddBackend", "SetStrategy"} {
@@ -671,10 +688,23 @@ func checkC11(c *Ctx) {
 				if t.Ret[0].K == ANil {
 					return ""
 				}
-				for _, it := range t.Items {
-					if strings.HasPrefix(it.Label, "mutate:") {
-						return "operation fails after having already changed state: " + it.Label
+				for i, it := range t.Items {
+					if !strings.HasPrefix(it.Label, "mutate:") {
+						continue
 					}
+					// an insertion that the same path takes back before it fails changed nothing
+					if strings.HasPrefix(it.Label, "mutate:insert ") {
+						undone := false
+						for _, later := range t.Items[i+1:] {
+							if later.Label == "undo:"+strings.TrimPrefix(it.Label, "mutate:insert ") {
+								undone = true
+							}
+						}
+						if undone {
+							continue
+						}
+					}
+					return "operation fails after having already changed state: " + it.Label
 				}
 				return ""
 			})
@@ -1071,8 +1101,10 @@ func (c *Ctx) backendAddressUsable() {
 			}
 			return ""
 		},
-		Cond:   p.condMentions("url.URL.Scheme", "url.URL.Host"),
-		Expand: func(callee *ssa.Function, site ssa.CallInstruction) bool { return fnPkg(callee) == fnPkg(ab) && callee.Signature.Recv() == nil },
+		Cond: p.condMentions("url.URL.Scheme", "url.URL.Host"),
+		Expand: func(callee *ssa.Function, site ssa.CallInstruction) bool {
+			return fnPkg(callee) == fnPkg(ab) && callee.Signature.Recv() == nil
+		},
 	}
 	c.traceRule("backend-address-usable", "loadbalancer.(*LoadBalancer).AddBackend", ab, sp,
 		"a backend is registered only after its URL was found to have scheme http/https and a host",
@@ -1102,4 +1134,39 @@ func (c *Ctx) backendAddressUsable() {
 			}
 			return ""
 		})
+}
+
+// credentialVerbatim: "unless the request carries exactly 'Bearer <token>'" is about the token as it
+// stands in the configuration.  The field is filled by the YAML decoder only; any store to it in
+// Helios code rewrites the credential (os.ExpandEnv turns "$ecret" into "" — and an empty token means
+// authentication is off; TrimSpace or ToLower widen what is accepted).
+func (c *Ctx) credentialVerbatim() {
+	p := c.P
+	construct := "config.AdminAPIConfig.AuthToken"
+	var bad []string
+	reads := 0
+	for _, fn := range p.Funcs {
+		if !p.InScope(fn) {
+			continue
+		}
+		for _, a := range Accesses(fn) {
+			if a.Key != construct {
+				continue
+			}
+			if a.IsWrite() {
+				bad = append(bad, fmt.Sprintf("%s: %s stores to %s: the token enforced is no longer the one configured", p.InstrPos(a.Instr), p.FuncKey(fn), construct))
+			} else {
+				reads++
+			}
+		}
+	}
+	if reads == 0 {
+		c.Missing("credential-verbatim", construct)
+		return
+	}
+	if len(bad) == 0 {
+		c.Pass("credential-verbatim", construct, "-", fmt.Sprintf("read %d times, never stored after decoding", reads))
+	} else {
+		c.Fail("credential-verbatim", construct, "-", bad[0], bad...)
+	}
 }
